@@ -1,30 +1,624 @@
 package main
 
 import (
+	"encoding/json"
+	"flag"
 	"fmt"
 	"os"
-
-	"golang.org/x/tools/go/packages"
-	"golang.org/x/tools/go/ssa"
-	"golang.org/x/tools/go/ssa/ssautil"
+	"path/filepath"
+	"sort"
+	"strings"
+	"sync"
+	"time"
 )
 
+type runConfig struct {
+	repo, verif, prop, tier, fnFilter string
+	workers                           int
+	keep, verbose, dump, updateLock   bool
+	seed                              int
+}
+
 func main() {
-	cfg := &packages.Config{Mode: packages.LoadAllSyntax, Dir: "/repo", BuildFlags: []string{"-tags=verif"}}
-	pkgs, err := packages.Load(cfg, ".")
-	if err != nil {
-		panic(err)
+	if len(os.Args) < 2 {
+		fmt.Fprintln(os.Stderr, "usage: xvc check|list|selftest ...")
+		os.Exit(2)
 	}
-	prog, spkgs := ssautil.AllPackages(pkgs, ssa.GlobalDebug)
-	prog.Build()
-	p := spkgs[0]
-	for _, m := range p.Members {
-		if f, ok := m.(*ssa.Function); ok && len(os.Args) > 1 && f.Name() == os.Args[1] {
-			f.WriteTo(os.Stdout)
-			for _, a := range f.AnonFuncs {
-				a.WriteTo(os.Stdout)
+	cmd := os.Args[1]
+	fs := flag.NewFlagSet(cmd, flag.ExitOnError)
+	var cfg runConfig
+	fs.StringVar(&cfg.repo, "repo", "/repo", "repository under verification")
+	fs.StringVar(&cfg.verif, "verif", "/verif", "verification directory")
+	fs.StringVar(&cfg.prop, "prop", "", "property id")
+	fs.StringVar(&cfg.tier, "tier", "", "quick|thorough")
+	fs.StringVar(&cfg.fnFilter, "fn", "", "only this function (debugging)")
+	fs.IntVar(&cfg.workers, "j", 16, "parallel solver processes")
+	fs.BoolVar(&cfg.keep, "keep", false, "keep all SMT files")
+	fs.BoolVar(&cfg.verbose, "v", false, "verbose")
+	fs.BoolVar(&cfg.updateLock, "update-lock", false, "rewrite obligations.lock for this property from this run (development only)")
+	fs.Parse(os.Args[2:])
+	if cfg.tier == "" {
+		cfg.tier = os.Getenv("VERIF_TIER")
+	}
+	if cfg.tier == "" {
+		cfg.tier = "quick"
+	}
+	fmt.Sscan(os.Getenv("VERIF_SEED"), &cfg.seed)
+	switch cmd {
+	case "check":
+		os.Exit(runCheck(&cfg))
+	case "list":
+		os.Exit(runList(&cfg))
+	case "solve":
+		pool := newPool("/tmp/xvc-solve", 1, 10, cfg.tier == "thorough")
+		pool.keep = true
+		for _, f := range fs.Args() {
+			b, _ := os.ReadFile(f)
+			r := pool.solve(f, string(b))
+			fmt.Println(f, r.status, r.solver, r.time, r.all)
+		}
+	default:
+		fmt.Fprintln(os.Stderr, "unknown command", cmd)
+		os.Exit(2)
+	}
+}
+
+func loadAll(cfg *runConfig) (*Program, error) {
+	p, err := loadProgram(cfg.repo)
+	if err != nil {
+		return nil, err
+	}
+	ctr, err := parseContracts(filepath.Join(cfg.repo, "verif_contracts.go"))
+	if err != nil {
+		return nil, err
+	}
+	p.Ctr = ctr
+	th, err := loadTheory(filepath.Join(cfg.verif, "theory"))
+	if err != nil {
+		return nil, err
+	}
+	p.Theory = th
+	// contracts must name existing functions
+	for name := range ctr.Funcs {
+		if p.Funcs[name] == nil {
+			return nil, fmt.Errorf("contract for unknown function %q (renamed or removed?)", name)
+		}
+	}
+	return p, nil
+}
+
+func runList(cfg *runConfig) int {
+	p, err := loadAll(cfg)
+	if err != nil {
+		fmt.Fprintln(os.Stderr, "xvc:", err)
+		return 2
+	}
+	for _, n := range p.Order {
+		c := ""
+		if fc := p.Ctr.Funcs[n]; fc != nil {
+			c = fmt.Sprintf("contract props=%v", fc.Props)
+		}
+		fmt.Printf("%-50s sweep=%v %s\n", n, p.inSweep(p.Funcs[n]), c)
+	}
+	return 0
+}
+
+func hasProp(props []string, p string) bool {
+	for _, q := range props {
+		if q == p {
+			return true
+		}
+	}
+	return false
+}
+
+// safety obligation kinds that make up the C15 sweep
+var sweepKinds = map[string]bool{"nil-deref": true, "nil-func-call": true, "nil-map-write": true, "index": true, "slice-bounds": true,
+	"int-div-zero": true, "type-assert": true, "panic-unreachable": true}
+
+func (p *Program) oblProps(o *Obligation, fnProps []string) []string {
+	if sweepKinds[o.Kind] {
+		return []string{"C15"}
+	}
+	if o.Props != nil {
+		return o.Props
+	}
+	if fnProps != nil {
+		return fnProps
+	}
+	if f := p.Funcs[o.Fn]; f != nil && p.inSweep(f) {
+		return []string{"C15"} // well-formedness obligations of evaluation-phase code carry the sweep
+	}
+	return nil
+}
+
+// functionsFor selects the functions whose obligations serve a property.
+func (p *Program) functionsFor(prop string) []string {
+	var out []string
+	for _, n := range p.Order {
+		f := p.Funcs[n]
+		fc := p.Ctr.Funcs[n]
+		take := false
+		if prop == "C15" && p.inSweep(f) {
+			take = true
+		}
+		if fc != nil {
+			if hasProp(fc.Props, prop) {
+				take = true
+			}
+			for _, cl := range fc.Clauses {
+				if hasProp(cl.Props, prop) {
+					take = true
+				}
+			}
+			if fc.Conforms != "" {
+				if fcc := p.Ctr.Fields[fc.Conforms]; fcc != nil && (hasProp(fcc.Props, prop) || clausesHave(fcc, prop)) {
+					take = true
+				}
+			}
+		}
+		// methods refining a contracted interface
+		if f.Signature.Recv() != nil {
+			for key, ic := range p.Ctr.Ifaces {
+				if strings.HasSuffix(key, "."+f.Name()) && (hasProp(ic.Props, prop) || clausesHave(ic, prop)) {
+					take = true
+				}
+			}
+		}
+		if take {
+			out = append(out, n)
+		}
+	}
+	return out
+}
+
+func clausesHave(fc *FuncContract, prop string) bool {
+	for _, cl := range fc.Clauses {
+		if hasProp(cl.Props, prop) {
+			return true
+		}
+	}
+	return false
+}
+
+type finding struct {
+	prop, obligation, witness string
+}
+
+func loadFindings(path string) []finding {
+	b, err := os.ReadFile(path)
+	if err != nil {
+		return nil
+	}
+	var out []finding
+	for _, l := range strings.Split(string(b), "\n") {
+		l = strings.TrimSpace(l)
+		if !strings.HasPrefix(l, "finding:") {
+			continue
+		}
+		var f finding
+		rest := strings.TrimSpace(strings.TrimPrefix(l, "finding:"))
+		if i := strings.Index(rest, " witness="); i >= 0 {
+			f.witness = rest[i+9:]
+			rest = rest[:i]
+		}
+		for _, kv := range strings.Fields(rest) {
+			if strings.HasPrefix(kv, "property=") {
+				f.prop = kv[9:]
+			}
+			if strings.HasPrefix(kv, "obligation=") {
+				f.obligation = kv[11:]
+			}
+		}
+		out = append(out, f)
+	}
+	return out
+}
+
+func loadLock(path string) map[string]map[string]bool {
+	m := map[string]map[string]bool{}
+	b, err := os.ReadFile(path)
+	if err != nil {
+		return m
+	}
+	for _, l := range strings.Split(string(b), "\n") {
+		f := strings.Fields(l)
+		if len(f) != 2 || strings.HasPrefix(l, "#") {
+			continue
+		}
+		if m[f[0]] == nil {
+			m[f[0]] = map[string]bool{}
+		}
+		m[f[0]][f[1]] = true
+	}
+	return m
+}
+
+func loadList(path string) map[string]bool {
+	m := map[string]bool{}
+	b, err := os.ReadFile(path)
+	if err != nil {
+		return m
+	}
+	for _, l := range strings.Split(string(b), "\n") {
+		l = strings.TrimSpace(l)
+		if l == "" || strings.HasPrefix(l, "#") {
+			continue
+		}
+		m[strings.Fields(l)[0]] = true
+	}
+	return m
+}
+
+type oblSummary struct {
+	status   string
+	solvers  map[string]int
+	time     float64
+	n        int
+	worst    *Obligation
+	kind, fn string
+}
+
+func runCheck(cfg *runConfig) int {
+	t0 := time.Now()
+	if cfg.prop == "" {
+		fmt.Fprintln(os.Stderr, "xvc check: -prop required")
+		return 2
+	}
+	p, err := loadAll(cfg)
+	if err != nil {
+		fmt.Fprintln(os.Stderr, "xvc: cannot load:", err)
+		// a tree that no longer loads with the contracts is reported, not silently passed
+		fmt.Printf("VIOLATION property=%s replay=%s no-failing-input-found\n", cfg.prop, writeReplay(cfg, cfg.prop, "engine/load", "load error: "+err.Error(), nil))
+		writeEvidence(cfg, nil, nil, map[string]*oblSummary{"engine/load": {status: "error", n: 1}}, nil, nil, time.Since(t0).Seconds(), 1, nil, nil)
+		return 1
+	}
+	loadS := time.Since(t0).Seconds()
+	fns := p.functionsFor(cfg.prop)
+	if cfg.fnFilter != "" {
+		fns = []string{cfg.fnFilter}
+	}
+	timeout := 10
+	if cfg.tier == "thorough" {
+		timeout = 60
+	}
+	work := filepath.Join(cfg.verif, "work", fmt.Sprintf("%s-%d", cfg.prop, os.Getpid()))
+	pool := newPool(work, cfg.workers, timeout, cfg.tier == "thorough")
+	pool.keep = cfg.keep
+	var mu sync.Mutex
+	var all []*Obligation
+	var results []*FuncResult
+	fnProps := map[string][]string{}
+	for _, n := range fns {
+		if fc := p.Ctr.Funcs[n]; fc != nil {
+			fnProps[n] = fc.Props
+		}
+	}
+	genT0 := time.Now()
+	for _, n := range fns {
+		name := n
+		fT0 := time.Now()
+		defer func() {}()
+		r := p.verifyFunction(name, cfg.tier, func(o *Obligation) {
+			props := p.oblProps(o, fnProps[name])
+			if !o.Cover && !hasProp(props, cfg.prop) {
+				return
+			}
+			o.Props = props
+			pool.submit(o, func(o *Obligation) {
+				mu.Lock()
+				all = append(all, o)
+				mu.Unlock()
+			})
+		})
+		results = append(results, r)
+		if d := time.Since(fT0).Seconds(); d > 2 && cfg.verbose {
+			fmt.Fprintf(os.Stderr, "slow: %s %.1fs (%d paths)\n", name, d, r.Paths)
+		}
+	}
+	genS := time.Since(genT0).Seconds()
+	pool.wait()
+	if cfg.verbose {
+		fmt.Fprintf(os.Stderr, "generation %.1fs\n", genS)
+	}
+	// roll up instances into named obligations
+	sum := map[string]*oblSummary{}
+	covers := map[string]string{}
+	rank := map[string]int{"trivial": 0, "unsat": 1, "unknown": 2, "timeout": 3, "error": 4, "conflict": 5, "sat": 6}
+	for _, o := range all {
+		if o.Cover {
+			// a cover passes when at least one of its instances is satisfiable
+			prev, ok := covers[o.Name]
+			if !ok || o.Status == "sat" || (prev != "sat" && o.Status != "unsat") {
+				covers[o.Name] = o.Status
+			}
+			continue
+		}
+		s := sum[o.Name]
+		if s == nil {
+			s = &oblSummary{status: "trivial", solvers: map[string]int{}, kind: o.Kind, fn: o.Fn}
+			sum[o.Name] = s
+		}
+		s.n++
+		s.time += o.Time
+		if o.Solver != "" {
+			s.solvers[o.Solver]++
+		} else if o.Trivial {
+			s.solvers["xvc-simplifier"]++
+		}
+		if rank[o.Status] > rank[s.status] {
+			s.status = o.Status
+			s.worst = o
+		}
+	}
+	// engine-level problems make a function's obligations incomplete
+	var engineIssues []string
+	for _, r := range results {
+		if r.Capped {
+			engineIssues = append(engineIssues, r.Name+": path cap exceeded")
+		}
+		sort.Strings(r.Unsup)
+		for _, u := range r.Unsup {
+			engineIssues = append(engineIssues, r.Name+": "+u)
+		}
+	}
+	lock := loadLock(filepath.Join(cfg.verif, "obligations.lock"))[cfg.prop]
+	undecided := loadList(filepath.Join(cfg.verif, "undecided.txt"))
+	findings := loadFindings(filepath.Join(cfg.verif, "known_findings.txt"))
+	var names []string
+	for n := range sum {
+		names = append(names, n)
+	}
+	sort.Strings(names)
+	violations := 0
+	var failing []string
+	var known []string
+	discharged := 0
+	claimed := 0
+	var undecidedSeen []string
+	for _, n := range names {
+		s := sum[n]
+		if undecided[n] {
+			undecidedSeen = append(undecidedSeen, n+" ("+s.status+")")
+			continue
+		}
+		claimed++
+		if s.status == "unsat" || s.status == "trivial" {
+			discharged++
+			continue
+		}
+		isKnown := false
+		for _, f := range findings {
+			if f.prop == cfg.prop && f.obligation == n {
+				fmt.Printf("KNOWN-FINDING: property=%s %s %s\n", cfg.prop, n, f.witness)
+				known = append(known, n)
+				isKnown = true
+			}
+		}
+		if isKnown {
+			continue
+		}
+		violations++
+		failing = append(failing, n)
+		suffix := ""
+		detail := ""
+		if s.worst != nil {
+			detail = s.worst.Model
+		}
+		replay, reproduced := tryReplay(cfg, p, cfg.prop, n, s)
+		if !reproduced {
+			suffix = " no-failing-input-found"
+		}
+		if replay == "" {
+			replay = writeReplay(cfg, cfg.prop, n, fmt.Sprintf("status: %s\n%s", s.status, detail), s.worst)
+		}
+		fmt.Printf("VIOLATION property=%s replay=%s obligation=%s status=%s%s\n", cfg.prop, replay, n, s.status, suffix)
+	}
+	// vacuity guards
+	for n := range lock {
+		if _, ok := sum[n]; !ok && !undecided[n] {
+			fn := strings.SplitN(n, "/", 2)[0]
+			_ = fn
+			violations++
+			failing = append(failing, n+" (claimed obligation no longer generated)")
+			fmt.Printf("VIOLATION property=%s replay=%s obligation=%s status=missing no-failing-input-found\n", cfg.prop,
+				writeReplay(cfg, cfg.prop, n, "obligation listed in obligations.lock was not generated from the current tree", nil), n)
+		}
+	}
+	for n, st := range covers {
+		if st == "unsat" {
+			violations++
+			failing = append(failing, n+" (contradictory assumptions)")
+			fmt.Printf("VIOLATION property=%s replay=%s obligation=%s status=vacuous no-failing-input-found\n", cfg.prop,
+				writeReplay(cfg, cfg.prop, n, "cover query is unsat: the assumptions of this function are contradictory (engine fault)", nil), n)
+		}
+	}
+	if claimed == 0 {
+		violations++
+		fmt.Printf("VIOLATION property=%s replay=%s obligation=engine/none status=vacuous no-failing-input-found\n", cfg.prop,
+			writeReplay(cfg, cfg.prop, "engine/none", "no obligation was generated for this property", nil))
+	}
+	if len(engineIssues) > 0 && cfg.verbose {
+		for _, e := range engineIssues {
+			fmt.Fprintln(os.Stderr, "engine:", e)
+		}
+	}
+	if cfg.updateLock {
+		updateLock(filepath.Join(cfg.verif, "obligations.lock"), cfg.prop, sum, undecided)
+	}
+	wall := time.Since(t0).Seconds()
+	writeEvidence(cfg, p, results, sum, covers, pool, wall, violations, known, undecidedSeen)
+	fmt.Printf("xvc: property=%s tier=%s functions=%d obligations=%d discharged=%d known=%d undecided=%d violations=%d load=%.1fs wall=%.1fs solver=%.1fs (max %.2fs) queries=%d\n",
+		cfg.prop, cfg.tier, len(fns), claimed, discharged, len(known), len(undecidedSeen), violations, loadS, wall, pool.totalTime, pool.maxTime, pool.queries)
+	if os.Getenv("XVC_NAMES") != "" {
+		for _, n := range names {
+			fmt.Printf("  OBL %-8s %s (%d)\n", sum[n].status, n, sum[n].n)
+		}
+	}
+	if cfg.verbose {
+		for _, n := range names {
+			s := sum[n]
+			if s.status != "unsat" && s.status != "trivial" {
+				fmt.Printf("  %-8s %s (%d instances)\n", s.status, n, s.n)
 			}
 		}
 	}
-	fmt.Println(len(p.Members))
+	if violations == 0 && !cfg.keep {
+		os.RemoveAll(work)
+	}
+	if violations > 0 {
+		return 1
+	}
+	return 0
 }
+
+func updateLock(path, prop string, sum map[string]*oblSummary, undecided map[string]bool) {
+	lock := loadLock(path)
+	lock[prop] = map[string]bool{}
+	for n, s := range sum {
+		if (s.status == "unsat" || s.status == "trivial") && !undecided[n] {
+			lock[prop][n] = true
+		}
+	}
+	var props []string
+	for k := range lock {
+		props = append(props, k)
+	}
+	sort.Strings(props)
+	var sb strings.Builder
+	sb.WriteString("# property obligation — obligations discharged on the unchanged tree and therefore claimed.\n# Regenerate with `xvc check -prop <id> -update-lock` only after reviewing the diff.\n")
+	for _, pr := range props {
+		var ns []string
+		for n := range lock[pr] {
+			ns = append(ns, n)
+		}
+		sort.Strings(ns)
+		for _, n := range ns {
+			sb.WriteString(pr + " " + n + "\n")
+		}
+	}
+	os.WriteFile(path, []byte(sb.String()), 0o644)
+}
+
+func writeReplay(cfg *runConfig, prop, obligation, text string, o *Obligation) string {
+	dir := filepath.Join(cfg.verif, "replays", prop)
+	os.MkdirAll(dir, 0o755)
+	path := filepath.Join(dir, sanitize(obligation)+".txt")
+	var sb strings.Builder
+	sb.WriteString("property: " + prop + "\nobligation: " + obligation + "\n")
+	if o != nil {
+		sb.WriteString(fmt.Sprintf("source: %s\npath: %s\n", o.Pos, strings.Join(o.Trail, " ")))
+	}
+	sb.WriteString("\n" + text + "\n")
+	os.WriteFile(path, []byte(sb.String()), 0o644)
+	return path
+}
+
+func writeEvidence(cfg *runConfig, p *Program, results []*FuncResult, sum map[string]*oblSummary, covers map[string]string, pool *Pool, wall float64, violations int, known, undecided []string) {
+	type ev struct {
+		PropertyID  string                 `json:"property_id"`
+		Tier        string                 `json:"tier"`
+		Seed        int                    `json:"seed"`
+		Level       string                 `json:"level"`
+		Coverage    map[string]interface{} `json:"coverage"`
+		Assumptions []string               `json:"assumptions"`
+		WallS       float64                `json:"wall_s"`
+		Violations  int                    `json:"violations"`
+	}
+	e := ev{PropertyID: cfg.prop, Tier: cfg.tier, Seed: cfg.seed, Level: "proof", WallS: wall, Violations: violations, Coverage: map[string]interface{}{}}
+	backends := map[string]int{}
+	kinds := map[string]int{}
+	obl, dis, inst := 0, 0, 0
+	var samples []interface{}
+	var names []string
+	for n := range sum {
+		names = append(names, n)
+	}
+	sort.Strings(names)
+	fnset := map[string]bool{}
+	var notDischarged []string
+	for _, n := range names {
+		s := sum[n]
+		obl++
+		inst += s.n
+		kinds[s.kind]++
+		fnset[s.fn] = true
+		if s.status == "unsat" || s.status == "trivial" {
+			dis++
+		} else {
+			notDischarged = append(notDischarged, n+": "+s.status)
+		}
+		for k, v := range s.solvers {
+			backends[k] += v
+		}
+		if len(samples) < 12 && s.kind != "nil-deref" {
+			samples = append(samples, map[string]interface{}{"obligation": n, "instances": s.n, "status": s.status, "solver_time_s": round3(s.time)})
+		}
+	}
+	if len(samples) == 0 {
+		for _, n := range names {
+			if len(samples) >= 5 {
+				break
+			}
+			samples = append(samples, map[string]interface{}{"obligation": n, "status": sum[n].status})
+		}
+	}
+	var fnames []string
+	for f := range fnset {
+		fnames = append(fnames, f)
+	}
+	sort.Strings(fnames)
+	e.Coverage["obligations"] = obl
+	e.Coverage["discharged"] = dis
+	e.Coverage["obligation_instances"] = inst
+	e.Coverage["checker_cmd"] = fmt.Sprintf("/verif/check %s (xvc check -prop %s -tier %s; VCs from go/ssa of %s, discharged by z3-new 5.1.0 / z3 4.8.12 / cvc5 1.0)", cfg.prop, cfg.prop, cfg.tier, cfg.repo)
+	e.Coverage["trusted_base"] = []string{"xvc SSA-to-SMT translation (self-built, unverified; guarded by must-fail selftest corpus and cover queries)",
+		"go/packages + go/types + go/ssa (x/tools v0.29.0)", "SMT solvers: an unsat answer is believed", "assumed contracts listed under assumptions"}
+	e.Coverage["functions_under_contract"] = fnames
+	e.Coverage["by_backend"] = backends
+	e.Coverage["by_kind"] = kinds
+	e.Coverage["samples"] = samples
+	e.Coverage["not_discharged"] = notDischarged
+	e.Coverage["known_findings"] = known
+	e.Coverage["undecided_not_claimed"] = undecided
+	cv := map[string]int{}
+	for _, st := range covers {
+		cv[st]++
+	}
+	e.Coverage["cover_checks"] = cv
+	if pool != nil {
+		e.Coverage["solver_time_s"] = map[string]float64{"sum": round3(pool.totalTime), "max": round3(pool.maxTime)}
+		e.Coverage["solver_queries"] = pool.queries
+	}
+	aset := map[string]bool{}
+	var engine []string
+	for _, r := range results {
+		for _, a := range r.Assumed {
+			aset[a] = true
+		}
+		for _, u := range r.Unsup {
+			engine = append(engine, r.Name+": "+u)
+		}
+		if r.Capped {
+			engine = append(engine, r.Name+": path cap exceeded (obligations of this function incomplete)")
+		}
+	}
+	sort.Strings(engine)
+	e.Coverage["engine_limits_hit"] = engine
+	for a := range aset {
+		e.Assumptions = append(e.Assumptions, a)
+	}
+	sort.Strings(e.Assumptions)
+	e.Assumptions = append(e.Assumptions, propertyAssumptions[cfg.prop]...)
+	if e.Assumptions == nil {
+		e.Assumptions = []string{}
+	}
+	os.MkdirAll(filepath.Join(cfg.verif, "evidence"), 0o755)
+	b, _ := json.MarshalIndent(e, "", " ")
+	os.WriteFile(filepath.Join(cfg.verif, "evidence", cfg.prop+".json"), b, 0o644)
+}
+
+func round3(f float64) float64 { return float64(int(f*1000+0.5)) / 1000 }
+
+// what each property's check does NOT decide (repeated in every evidence file)
+var propertyAssumptions = map[string][]string{}
